@@ -161,6 +161,10 @@ where
         }
 
         let scale = AsPrimitive::<F>::as_(remaining_free_weight.as_()) / normalization;
+        if !scale.is_finite() {
+            // `normalization` is too small to normalize the probabilities in floating point.
+            return Err(());
+        }
 
         Ok(Self {
             pmf: probabilities,
